@@ -19,7 +19,7 @@ ASSUMPTIONS = ['CMAP text written by the harness is the ground truth for label c
                'M-serial (p_imap replaced by an ordered serial map) is faithful to the pooled run; cross-checked on a '
                'sample of cases per shard by comparing record lines with an M-pool run',
                'violations whose resolver trace matches a listed known-finding mechanism are reported as KNOWN-FINDING']
-MINIMUMS = {'records': {'quick': 1500, 'thorough': 20000}, 'candidates': {'quick': 3000, 'thorough': 40000},
+MINIMUMS = {'records': {'quick': 1000, 'thorough': 20000}, 'candidates': {'quick': 2000, 'thorough': 40000},
             'direct-calls': {'quick': 5000, 'thorough': 100000}, 'multi-segment-rows': {'quick': 50, 'thorough': 500},
             'joined-records': {'quick': 10, 'thorough': 100}, 'second-pass-records': {'quick': 50, 'thorough': 500}}
 CLASSES = ['clean', 'noisy', 'noisy', 'chimeric', 'indel', 'partial']
@@ -27,7 +27,7 @@ CLASSES = ['clean', 'noisy', 'noisy', 'chimeric', 'indel', 'partial']
 
 def plan(tier, seed):
     if tier == 'quick':
-        ne, ce, nd, cd = 16, 25, 16, 1300
+        ne, ce, nd, cd = 16, 17, 16, 1000
     else:
         ne, ce, nd, cd = 64, 95, 32, 12500
     return ([{'name': 'e2e%d' % i, 'kind': 'e2e', 'seed': seed, 'shard': i, 'cases': ce} for i in range(ne)] +
